@@ -127,7 +127,7 @@ def cdr_taint(fn, carlike=()):
                     l = rv["pl"]["l"]
                     if _is_cdr_place(fn, rv["pl"]):
                         src = ("field", l)
-                    elif l in tainted and not _projects_car(rv["pl"]["p"]):
+                    elif l in tainted and not _projects_car(rv["pl"]["p"], fn):
                         src = tainted[l]
                 elif k == "cast":
                     src = op_taint(rv["op"])
@@ -172,9 +172,23 @@ def _is_cdr_place(fn, pl):
             continue
         if any(t in ty for t in META_TYPES) and (e.get("ci") == 1 and not e.get("fe")):
             return True
+        # `meta[1]` through a Box is an Index projection by a local holding the constant; an index that is not
+        # known to be 0 may select the cdr's entry
+        if any(t in ty for t in META_TYPES) and "i" in e and _const_index(fn, e["i"]) != 0:
+            return True
         if any(t in ty for t in PAIR_TYPES) and e.get("f") == 1 and e.get("n") in (None, "1") and "adt" not in e:
             return True
     return False
+
+
+def _const_index(fn, l):
+    """The constant a local used as an array index holds (single definition `const n`), else None."""
+    ds = common.defs_of(fn).get(l, [])
+    if len(ds) == 1 and ds[0][1] != "term":
+        d = ds[0][2]
+        if d["k"] == "use":
+            return common.const_int(d["op"])
+    return None
 
 
 def _is_cdr_field_path(ps):
@@ -198,8 +212,13 @@ def _is_cdr_field_path(ps):
     return False
 
 
-def _projects_car(ps):
+def _projects_car(ps, fn=None):
     for e in ps:
+        # `[0]` of the [car_info, cdr_info] array (or any element of an array / slice): an element, not the successor
+        if isinstance(e, dict) and e.get("ci") == 0 and not e.get("fe"):
+            return True
+        if isinstance(e, dict) and "i" in e and fn is not None and _const_index(fn, e["i"]) == 0:
+            return True
         # `.0` of the (car, cdr) tuple - not the payload field `.0` of an enum variant such as Value::Cons(cell)
         if isinstance(e, dict) and e.get("f") == 0 and e.get("n") in ("0",) and "adt" not in e:
             return True
